@@ -4,6 +4,8 @@ use crate::Args;
 pub mod admin_common;
 #[path = "admin_gen.rs"]
 pub mod admin_gen;
+#[path = "admin_handlers.rs"]
+pub mod admin_handlers;
 
 pub fn gen(a: &Args) -> String {
     admin_gen::gen("C08", a)
